@@ -142,4 +142,73 @@ theorem J.inv {st : St} (h : J st) (hf : st.fuelOut = false) : Inv st := by
   · rw [hf] at h; exact absurd h (by simp)
   · exact h
 
+/-! ### frames -/
+
+theorem refreshBlock_core (st : St) (bid : Nat) :
+    (st.refreshBlock bid).vars = st.vars ∧ (st.refreshBlock bid).cons = st.cons ∧
+    (st.refreshBlock bid).blocks.size = st.blocks.size ∧ (st.refreshBlock bid).inactive = st.inactive ∧
+    (st.refreshBlock bid).fuelOut = st.fuelOut := by
+  simp [St.refreshBlock]
+
+theorem moveBlocks_core (st : St) :
+    st.moveBlocks.vars = st.vars ∧ st.moveBlocks.cons = st.cons ∧
+    st.moveBlocks.blocks.size = st.blocks.size ∧ st.moveBlocks.inactive = st.inactive ∧
+    st.moveBlocks.fuelOut = st.fuelOut := by
+  unfold St.moveBlocks
+  apply Array.foldl_induction
+    (motive := fun _ (s : St) => s.vars = st.vars ∧ s.cons = st.cons ∧
+      s.blocks.size = st.blocks.size ∧ s.inactive = st.inactive ∧ s.fuelOut = st.fuelOut)
+  · exact ⟨rfl, rfl, rfl, rfl, rfl⟩
+  · intro i s hs
+    obtain ⟨a, b, c, d, e⟩ := refreshBlock_core s st.order[i]
+    exact ⟨a.trans hs.1, b.trans hs.2.1, c.trans hs.2.2.1, d.trans hs.2.2.2.1, e.trans hs.2.2.2.2⟩
+
+theorem findMinLM_spec (st : St) (bid : Nat) :
+    (st.findMinLM bid).1.vars = st.vars ∧ (st.findMinLM bid).1.cons = st.cons ∧
+    (st.findMinLM bid).1.blocks = st.blocks ∧ (st.findMinLM bid).1.inactive = st.inactive ∧
+    ((st.findMinLM bid).1.fuelOut = false → st.fuelOut = false) ∧
+    (∀ ci lmv gap, (st.findMinLM bid).2 = some (ci, lmv, gap) → (st.cons[ci]!).active = true) := by
+  unfold St.findMinLM
+  simp only
+  refine ⟨trivial, trivial, trivial, trivial, ?_, ?_⟩
+  · intro h
+    simp only [Bool.or_eq_false_iff] at h
+    exact h.1
+  · intro ci lmv gap h
+    have hm := argMinFirst_mem _ _ _ _ h
+    simp only [Array.mem_map, Array.mem_filter] at hm
+    obtain ⟨cj, ⟨hcj, _⟩, heq⟩ := hm
+    simp only [Prod.mk.injEq] at heq
+    obtain ⟨rfl, _⟩ := heq
+    have hempty : ∀ ci ∈ (#[] : Array Nat), (st.cons[ci]!).active = true :=
+      fun ci hh => absurd hh (Array.not_mem_empty ci)
+    exact computeDfdv_post st bid (st.vars.size + 1) st.lm #[] _ none hempty cj hcj
+
+/-! ### the split as the callers perform it -/
+
+theorem splitOn_core (st : St) (ci : Nat) (ia : Array Nat)
+    (h : InvC st.vars st.cons st.blocks.size ia) (hact : (st.cons[ci]!).active = true)
+    (hfo : (st.splitOn (blk st.vars (st.cons[ci]!).l) ci).1.fuelOut = false) :
+    InvC (st.splitOn (blk st.vars (st.cons[ci]!).l) ci).1.vars
+      (st.splitOn (blk st.vars (st.cons[ci]!).l) ci).1.cons
+      (st.splitOn (blk st.vars (st.cons[ci]!).l) ci).1.blocks.size (ia.push ci) ∧
+    (∀ x, ReachAvoid st.cons ci (st.cons[ci]!).l x →
+      blk (st.splitOn (blk st.vars (st.cons[ci]!).l) ci).1.vars x =
+        (st.splitOn (blk st.vars (st.cons[ci]!).l) ci).2.1) ∧
+    (∀ x, ReachAvoid st.cons ci (st.cons[ci]!).r x →
+      blk (st.splitOn (blk st.vars (st.cons[ci]!).l) ci).1.vars x =
+        (st.splitOn (blk st.vars (st.cons[ci]!).l) ci).2.2) ∧
+    (st.splitOn (blk st.vars (st.cons[ci]!).l) ci).2.1 ≠
+      (st.splitOn (blk st.vars (st.cons[ci]!).l) ci).2.2 ∧
+    (st.splitOn (blk st.vars (st.cons[ci]!).l) ci).1.inactive = st.inactive.push ci ∧
+    st.fuelOut = false := by
+  have hci := active_lt _ _ hact
+  unfold St.splitOn St.split at hfo ⊢
+  simp only [St.refreshBlock, St.markDeleted] at hfo ⊢
+  simp only [Bool.or_eq_false_iff, Bool.not_eq_false'] at hfo
+  obtain ⟨⟨hf0, hok1⟩, hok2⟩ := hfo
+  obtain ⟨c1, c2, c3⟩ := split_core st.vars st.cons st.blocks.size ia h ci hci hact
+    (st.vars.size + 1) #[] #[] hok1 hok2
+  refine ⟨by simpa using c1, c2, c3, by omega, trivial, hf0⟩
+
 end AdaptaVerif.Lemmas.VpscLoop
